@@ -120,7 +120,7 @@ pub fn explore_base<C: Clone + Labeled + Sync + Send>(base: &C, label: &str, dev
     let b0 = build(base);
     let v0 = exec::run(&b0);
     if !v0.accepted() {
-        mc_core::report::machinery_failure(&format!("base {label} is not accepted on the current tree: {v0:?}; artefact {}", b0.to_json()));
+        crate::fail(&format!("base {label} is not accepted on the current tree: {v0:?}; artefact {}", b0.to_json()));
     }
     record(&mut acc, &b0, &v0);
     visit(&b0, &v0, 0);
@@ -174,6 +174,7 @@ pub fn explore_base<C: Clone + Labeled + Sync + Send>(base: &C, label: &str, dev
 /// The whole TxLab space of the given eras.
 pub fn sweep(eras: &[Era], base_filter: &dyn Fn(&str) -> bool, bounds: Bounds, visit: Visit) -> Summary {
     let mut total = Summary::default();
+    crate::quiet::silence_stderr();
     if eras.contains(&Era::Byron) {
         for base in byron::bases() {
             if !base_filter(&base.base) {
@@ -192,6 +193,7 @@ pub fn sweep(eras: &[Era], base_filter: &dyn Fn(&str) -> bool, bounds: Bounds, v
         let s = explore_base(&base, &base.label(), &devs, &txlab::build, bounds, visit);
         total = total.merge(s);
     }
+    crate::quiet::restore_stderr();
     total
 }
 
